@@ -38,7 +38,7 @@ DROPPED = {'pitch_bends'}
 
 
 def E(text):
-  return ast.parse(text, mode='eval').body
+  return U.E(text)
 
 
 def conj(test):
